@@ -109,6 +109,7 @@ type retRec struct {
 
 type capRec struct {
 	called *Term
+	pre    *State // state right before the call (nil when ambiguous or not recorded)
 	args   []Val
 	rets   []Val
 	sig    *types.Signature
@@ -169,6 +170,9 @@ func (ex *Exec) fact(st *State, f *Term) {
 	if st != nil {
 		f = Implies(st.reach, f)
 	}
+	// a fact recorded while evaluating under a quantifier holds for every value of the bound
+	// variable (it was derived without assumptions about it)
+	f = closeOver(f)
 	ex.facts = append(ex.facts, f)
 	ex.factBlk = append(ex.factBlk, ex.curBlk)
 }
